@@ -437,7 +437,7 @@ func decodePart(w *vc.Writer, r *vc.Rand) {
 		}
 	}
 	keyTexts := map[int][]string{
-		7: {"", "a", "b c", "é", "0", "true"},
+		7: {"", "a", "b c", "é", "0", "true", "ctl\x01", "bell\a", "tag\U000e0001", "zw\u200b", "del\x7f", "q\"uote"},
 		1: {"0", "1", "-1", "2147483647", "2147483648", "1.0", "1e2", "1.5", "x", "", "+1", "007"},
 		2: {"0", "-5", "9223372036854775807", "9223372036854775808", "1e3", "abc"},
 		3: {"0", "7", "4294967295", "4294967296", "-1", "1.0"},
@@ -527,7 +527,10 @@ func rtPart(w *vc.Writer, r *vc.Rand) {
 	ints := []int64{0, 1, -1, math.MaxInt32, math.MinInt32, math.MaxInt64, math.MinInt64, 1 << 53, 1<<53 + 1, -(1<<53 + 1), 1099511627776}
 	uints := []uint64{0, 1, math.MaxUint32, math.MaxUint64, 1 << 63, 1<<53 + 1}
 	floats := []float64{0, math.Copysign(0, -1), 1, -1.5, 3.14, math.MaxFloat32, math.SmallestNonzeroFloat32, math.MaxFloat64, math.SmallestNonzeroFloat64, math.NaN(), math.Inf(1), math.Inf(-1), 1e21, 1e-7, 123456789.125}
-	strs := []string{"", "a", "quote\"d", "é中", "line\nbreak", " ", "😀", "<&>", "true", "0"}
+	strs := []string{"", "a", "quote\"d", "é中", "line\nbreak", " ", "😀", "<&>", "true", "0",
+		// characters that Go's own quoting (strconv.Quote) writes differently from JSON: controls, DEL, bell / vertical tab,
+		// non-printable runes inside and outside the basic plane
+		"ctl\x01", "del\x7f", "bell\a", "vt\v", "zw\u200b", "tag\U000e0001", "nb\u00a0", "\ufeffbom", "back\\slash", "nul\x00"}
 	bss := [][]byte{{}, {0}, {0xff, 0xfe}, []byte("ABC"), []byte("AB"), {1, 2, 3, 4, 5}, {0xfb, 0xff, 0xbf}}
 	enums := []int32{0, 1, 2, -1, math.MaxInt32, 42, math.MinInt32}
 	// pools of protoreflect values per kind
